@@ -270,10 +270,9 @@ def run(snafile, options, config):
         outfffd = state.get('fffd', snapshot.outfffd)
         ay = list(snapshot.ay)
         outfe = state.get('fe', snapshot.outfe)
+        snapshot.out7ffd = out7ffd
         simulator = from_snapshot(simulator_cls, snapshot, registers, state, sim_config, options.rom)
         memory = simulator.memory
-        if len(memory) == 0x20000:
-            memory.out7ffd(out7ffd)
     else:
         border = state.get('border', 7)
         out7ffd = state.get('7ffd', 0)
